@@ -728,6 +728,14 @@ def ev_dyadic(facts):
             want = 'Less' if va < vb else 'Greater' if va > vb else 'Equal'
             if not (isinstance(o, tuple) and str(o[1]).rsplit('::', 1)[-1] == want):
                 fail('order', 'cmp(%s, %s) = %s, the reals say %s' % (show(a), show(b), o[1].rsplit('::', 1)[-1] if isinstance(o, tuple) else o, want))
+    # From<f64>: always flagged approximate, denotes exactly the float, normalised
+    FK = '<%s as std::convert::From<f64>>::from' % DY
+    res['from-f64'] = [True, '']
+    for x in (0.0, 1.0, -2.5, 0.001, 3.0e10, -7.0 / 3.0, 2.0 ** -40):
+        r = _dy_call(facts, FK, [x])
+        n += 1
+        if not _dy_wellformed(r) or not (r['flags'] & 2) or _dy_value(r) != Fr(x):
+            fail('from-f64', 'Dyadic::from(%r) = %s (must denote the float exactly, be normalised and be flagged approximate)' % (x, show(r)))
     # taint: an approximate operand makes the result approximate (a product with an exact zero is exactly zero)
     reps = [d for d in dom if d['exp'] in (0, -64)][:9] + [dom[0]]
     for a in reps:
@@ -761,7 +769,7 @@ def _s4_interp(facts):
             if isinstance(a[0], int) and not isinstance(a[0], bool):
                 return it.local_call(DY + '::new', [a[0], 0])
             if isinstance(a[0], float):
-                raise minirust.NoEval('float coefficient')
+                return it.local_call('<%s as std::convert::From<f64>>::from' % DY, [a[0]])
         return base(c, e, args)
     it.host_call = hc
     hm0 = it.host_method
@@ -770,6 +778,8 @@ def _s4_interp(facts):
         from .. import circsem as cs2
         if isinstance(recv, cs2.Ph) and nm in ('numer', 'denom'):
             return recv.v.numerator if nm == 'numer' else recv.v.denominator
+        if isinstance(recv, cs2.Ph) and nm == 'to_f64':
+            return minirust.some(float(recv.v))
         if nm == 'rem_euclid' and isinstance(recv, int) and not isinstance(recv, bool):
             a = args()
             return recv % a[0]
@@ -863,6 +873,21 @@ def ev_scalar4(facts):
                     fail(name, '%s %s %s = %s, exactly %s' % (show(va), {'add': '+', 'sub': '-', 'mul': '*'}[name], show(vb), show(got), show(want)))
                 if any(d['flags'] & 2 for d in r['0']):
                     fail('exact-stays-exact', '%s %s %s of exact scalars with small coefficients is flagged approximate' % (show(va), name, show(vb)))
+    # every operator impl (by value / by reference / assigning forms) agrees with the reference on pairs that separate operand order
+    res['operator-impls'] = [True, '']
+    from .. import rops as _rops
+    probe = [(dom[6], vals[6]), (dom[12], vals[12]), (dom[10], vals[10])]
+    for key, op, is_assign, _sx in _rops.op_impls(facts, lambda t: t.replace('&', '').strip() == S4):
+        if op not in ('Add', 'Sub', 'Mul') or key not in facts['fns'] or len(facts['fns'][key]['params']) != 2:
+            continue
+        for (a, va), (b, vb) in [(x, y) for x in probe for y in probe if x is not y]:
+            a1, b1 = minirust.deep_clone(a), minirust.deep_clone(b)
+            r = _s4_call(facts, key, [a1, b1])
+            n += 1
+            got = _s4_value(a1 if is_assign else r)
+            want = tuple(x + y for x, y in zip(va, vb)) if op == 'Add' else tuple(x - y for x, y in zip(va, vb)) if op == 'Sub' else _s4_mul(va, vb)
+            if got != want:
+                fail('operator-impls', '%s: %s %s %s = %s, exactly %s' % (key, show(va), {'Add': '+', 'Sub': '-', 'Mul': '*'}[op], show(vb), show(got), show(want)))
     for p in range(-7, 8):
         r = _s4_call(facts, '<%s as scalar_traits::Sqrt2>::sqrt2_pow' % S4, [p])
         n += 1
@@ -874,6 +899,18 @@ def ev_scalar4(facts):
         n += 1
         if _s4_value(r) != tuple(Fr(x) for x in _s4_omega_pow(k)):
             fail('from-phase', 'the scalar of the phase %s is %s, e^(i pi %s) is %s' % (Fr(k, 4), show(_s4_value(r)), Fr(k, 4), show(_s4_omega_pow(k))))
+    # phases that are not multiples of pi/4 take the float branch: every coefficient is flagged approximate and the value is e^(i pi phi) to 1e-12
+    import cmath
+    res['from-phase-inexact'] = [True, '']
+    for ph in (Fr(1, 3), Fr(1, 8), Fr(-2, 5), Fr(5, 6), Fr(7, 16)):
+        r = _s4_call(facts, fpk, [cs.Ph(ph)])
+        n += 1
+        v = _s4_value(r)
+        w = cmath.exp(1j * cmath.pi / 4)
+        z = sum(complex(float(c)) * w ** i for i, c in enumerate(v))
+        flagged = all((d['flags'] & 2) for d in r['0'] if d['val'] != 0)
+        if abs(z - cmath.exp(1j * cmath.pi * float(ph))) > 1e-12 or not flagged:
+            fail('from-phase-inexact', 'the scalar of the phase %s is %s (%s), which is %s' % (ph, show(v), z, 'not flagged approximate' if not flagged else 'not e^(i pi %s)' % ph))
     # recognition: every sqrt2^p * omega^k is recognised with that (phase, power); the other scalars of the domain are not
     ek = S4 + '::exact_phase_and_sqrt2_pow'
     forms = {}
@@ -1015,6 +1052,13 @@ def sqrt2_descriptor(f):
 SQRT2_REF = ([(1, '(p / 2)'), (0, None), (0, None), (0, None)], [(0, None), (1, '((p - 1) / 2)'), (0, None), (-1, '((p - 1) / 2)')])
 
 
+def _shape(ck, rule, key, ok, site, msg='', sample=None):
+    """an obligation of a rule that reads a table / operand order off the code's SHAPE: a recognised good shape discharges, anything else is undecided —
+    the value-level clause is decided by the E3 evaluations (DESIGN 3.4)"""
+    ck.ob3(rule, key, True if ok else None, site, ('%s [shape not recognised by this rule; the values are decided by E3-dyadic / E3-scalar4]' % msg) if not ok else msg, sample)
+
+
+
 def _run_own(ck):
     facts = ck.facts
     ck.decided('D1 honest approx flag: every lossy mantissa shift is paired with the lost-bit test that sets APPROX; on every return path of Dyadic add/mul the result flags include the APPROX bit of both operands (exact-zero product shortcut excepted); From<f64> always sets it; Scalar4::approx is any()',
@@ -1031,7 +1075,7 @@ def _run_own(ck):
                 'taint': 'an approximate operand makes the result approximate',
                 'error-bound': 'an approximate result is off by no more than the truncation explains',
                 'order': 'cmp agrees with the order of the reals',
-                'neg': 'negation is exact and keeps the representation',
+                'neg': 'negation is exact and keeps the representation', 'from-f64': 'a Dyadic built from a float denotes it exactly and is flagged approximate',
                 'operands-untouched': 'operands are values'}
         for name, (ok, cex) in sorted(sem.items()):
             ck.ob('E3-dyadic', name, ok, ck.site(ADD if name not in ('order', 'neg') else CMP), '%s: %s' % (msgs[name], cex), sample={'evaluations': nev})
@@ -1045,8 +1089,8 @@ def _run_own(ck):
         sem, nev = ev_scalar4(facts)
         msgs = {'add': 'the reference Add impl is the sum in Z[omega][1/2]', 'sub': 'the reference Sub impl is the difference', 'mul': 'the reference Mul impl is the product with omega^4 = -1',
                 'conj': 'conj is complex conjugation', 'zero-one-tests': 'is_zero / is_one agree with the value', 'sqrt2-pow': 'sqrt2_pow(p) is sqrt(2)^p',
-                'from-phase': 'the scalar of a phase k*pi/4 is omega^k', 'exact-phase-and-sqrt2-pow': 'exactly the scalars sqrt2^p * omega^k are recognised, with that phase and power',
-                'exact-stays-exact': 'exact operands with small coefficients give exact results'}
+                'from-phase': 'the scalar of a phase k*pi/4 is omega^k', 'from-phase-inexact': 'a phase that is not a multiple of pi/4 becomes an approximate scalar close to e^(i pi phi)', 'exact-phase-and-sqrt2-pow': 'exactly the scalars sqrt2^p * omega^k are recognised, with that phase and power',
+                'exact-stays-exact': 'exact operands with small coefficients give exact results', 'operator-impls': 'every Add / Sub / Mul impl (by value, by reference, assigning) computes the reference operation in operand order'}
         for name, (ok, cex) in sorted(sem.items()):
             ck.ob('E3-scalar4', name, ok, ck.site(S4 + '::exact_phase_and_sqrt2_pow') if name.startswith('exact-phase') else 'quizx/src/scalar.rs', '%s: %s' % (msgs[name], cex), sample={'evaluations': nev})
         ck.floor('E3-scalar4-evaluations', nev, 1000)
@@ -1092,7 +1136,7 @@ def _run_own(ck):
     if len(lit) == 1:
         fl = hir.strip(dict((n, e) for n, e in lit[0]['fields'])['flags'])
         ok = fl.get('k') == 'Binary' and fl['op'] == 'BitOr' and any((hir.def_path(x) or '').endswith('::APPROX') for x in (fl['l'], fl['r']))
-    ck.ob('R-TAINT-approx', 'From<f64>/always-approx', ok, ck.site('<scalar::dyadic::Dyadic as std::convert::From<f64>>::from'), 'a Dyadic built from a float must always carry the APPROX flag')
+    _shape(ck, 'R-TAINT-approx', 'From<f64>/always-approx', ok, ck.site('<scalar::dyadic::Dyadic as std::convert::From<f64>>::from'), 'a Dyadic built from a float must always carry the APPROX flag')
     ap = ck.fn('scalar::Scalar4::approx')
     ok = any(c.get('k') == 'MethodCall' and c['name'] == 'any' for c in hir.calls(ap['hir'])) and bool(hir.calls_to(ap['hir'], DY + '::approx'))
     ck.ob('R-TAINT-approx', 'Scalar4::approx/any', ok, ck.site('scalar::Scalar4::approx'), 'Scalar4::approx must be true when any coefficient is approximate')
@@ -1130,10 +1174,10 @@ def _run_own(ck):
                 # a - b is a + (-b)
                 s = [n for n in hir.nodes(fk['hir']) if n.get('k') == 'Binary' and n['op'] == 'Add']
                 ok = len(s) == 1 and hir.local_name(s[0]['l']) == 'self' and hir.strip(s[0]['r']).get('k') == 'Unary' and hir.strip(s[0]['r'])['op'] == 'Neg' and hir.local_name(hir.strip(s[0]['r'])['e']) == 'rhs'
-                ck.ob('R-OPS', key, ok, ck.site(key), 'Dyadic subtraction must be self + (-rhs)')
+                _shape(ck, 'R-OPS', key, ok, ck.site(key), 'Dyadic subtraction must be self + (-rhs)')
                 continue
             ok, why, summ = rops.check_impl(fk, op, is_assign)
-            ck.ob('R-OPS', key, ok, ck.site(key), why, sample={'applications': summ})
+            _shape(ck, 'R-OPS', key, ok, ck.site(key), why, sample={'applications': summ})
     ck.floor('R-OPS', n_ops, 20)
     for key, want in (('<scalar::Scalar4 as std::iter::Sum>::sum', 'Add'), ('<scalar::Scalar4 as std::iter::Product>::product', 'Mul')):
         fk = ck.fn(key)
@@ -1142,7 +1186,7 @@ def _run_own(ck):
         ck.ob('R-OPS', key, ops == [want] and len(unit) == 1 and unit[0].endswith('::zero' if want == 'Add' else '::one'), ck.site(key),
               '%s must fold with %s from the neutral element; found ops %s from %s' % (key, want, ops, unit))
     cj = conj_descriptor(ck.fn('scalar::Scalar4::conj'))
-    ck.ob('R-TABLE-scalar', 'conj', cj == [(1, 0), (-1, 3), (-1, 2), (-1, 1)], ck.site('scalar::Scalar4::conj'), 'conj is %s, the conjugate in the basis 1, w, w^2, w^3 is [+0, -3, -2, -1]' % cj, sample={'table': str(cj)})
+    _shape(ck, 'R-TABLE-scalar', 'conj', cj == [(1, 0), (-1, 3), (-1, 2), (-1, 1)], ck.site('scalar::Scalar4::conj'), 'conj is %s, the conjugate in the basis 1, w, w^2, w^3 is [+0, -3, -2, -1]' % cj, sample={'table': str(cj)})
     mk = [k for k, op, a, s in rops.op_impls(facts, lambda s: s.replace('&', '').strip() == S4) if op == 'Mul' and hir.find(facts['fns'][k]['hir'], 'For')]
     ck.ob('R-TABLE-scalar', 'mul/reference-impl', len(mk) == 1, 'scalar.rs', 'expected exactly one reference impl of the Z[omega] product, found %s' % mk)
     if len(mk) == 1:
@@ -1166,12 +1210,12 @@ def _run_own(ck):
         ck.violation('R-TABLE-scalar', 'from-phase/shape', ck.site(fpk), 'anchor-missing')
     else:
         guard, formula, table = fp
-        ck.ob('R-TABLE-scalar', 'from-phase/guard', guard == ('divides', 4), ck.site(fpk), 'the exact branch must be taken exactly when the denominator divides 4 (`4 %% denom == 0`); found %s' % (guard,))
-        ck.ob('R-TABLE-scalar', 'from-phase/position', formula is not None, ck.site(fpk), 'the unit position must be numer*(4/denom) mod 8')
+        _shape(ck, 'R-TABLE-scalar', 'from-phase/guard', guard == ('divides', 4), ck.site(fpk), 'the exact branch must be taken exactly when the denominator divides 4 (`4 %% denom == 0`); found %s' % (guard,))
+        _shape(ck, 'R-TABLE-scalar', 'from-phase/position', formula is not None, ck.site(fpk), 'the unit position must be numer*(4/denom) mod 8')
         for p in range(8):
-            ck.ob('R-TABLE-scalar', 'from-phase/pos-%d' % p, table.get(p) == PHASE_REF[p], ck.site(fpk), 'e^(i pi %d/4) is written as %s, must be %s' % (p, table.get(p), PHASE_REF[p]))
+            _shape(ck, 'R-TABLE-scalar', 'from-phase/pos-%d' % p, table.get(p) == PHASE_REF[p], ck.site(fpk), 'e^(i pi %d/4) is written as %s, must be %s' % (p, table.get(p), PHASE_REF[p]))
     sq = sqrt2_descriptor(ck.fn('<scalar::Scalar4 as scalar_traits::Sqrt2>::sqrt2_pow'))
-    ck.ob('R-TABLE-scalar', 'sqrt2_pow', sq is not None and (sq[0], sq[1]) == SQRT2_REF, ck.site('<scalar::Scalar4 as scalar_traits::Sqrt2>::sqrt2_pow'),
+    _shape(ck, 'R-TABLE-scalar', 'sqrt2_pow', sq is not None and (sq[0], sq[1]) == SQRT2_REF, ck.site('<scalar::Scalar4 as scalar_traits::Sqrt2>::sqrt2_pow'),
           'sqrt2_pow is %s; must be 2^(p/2) for even p and 2^((p-1)/2) (w - w^3) for odd p' % (sq,), sample={'table': str(sq)})
     for key in (ckeys['by-ref'], ckeys['by-value']):
         d = complex_descriptor(ck.fn(key))
